@@ -171,7 +171,10 @@ class CoreTask:
 
     def cache_key(self):
         from pyvc import driver
-        dh = driver.dep_hash(self.root, modules=("_utils", "_types", "exceptions", "validators"), drafts=(self.d,))
+        mods = ("_utils", "_types", "exceptions", "validators")
+        if self.which == "ref_x":
+            mods += ("_validators", "_legacy_validators")      # this task executes the `$ref` keyword function itself
+        dh = driver.dep_hash(self.root, modules=mods, drafts=(self.d,))
         return "core|%s|%s|%s" % (self.name, self.timeout_ms, dh)
 
     def run(self):
